@@ -118,6 +118,14 @@ CHECKS.update({
             "DESIGN.md §2 C16"),
 })
 
+CHECKS.update({
+    "C13": ("exploration",
+            "online trace checker over the FakeNet contact log with virtual timestamps (contact-rate windows per run, eviction evidence, bypass, service, escaping exception identity, bounded recovery) under exhaustive short event sequences and random long ones",
+            "The real HashClient runs on a virtual clock (substituted for time in the hash and pool modules) against 2-3 reference servers whose health the checker scripts. All event sequences of length 5 (6 thorough) over {5 ops on keys owned by either server, advance 1/11/101 s, server 0/1 starts failing (refused/reset) or recovers} with a failure early in the sequence, for retry_attempts 0/1/2 x ignore_exc x pooling, plus seeded random sequences of length 20..80 over the full alphabet with 3 servers; a sample of leaves and every random sequence is extended by a recovery epilogue (all servers healthy, traffic every dead_timeout/10, original placement demanded after 2.5 dead_timeout).",
+            "Definitions fixed in DESIGN.md §2 C13 (failing = OSError on every exchange; contact; runs; closed windows). Private bookkeeping attributes are read only to count abstract states.",
+            "DESIGN.md §2 C13"),
+})
+
 NOT_YET = "check not built yet in this round (runtime-monitoring design in DESIGN.md §2); will be claimed once its monitor exists"
 
 manifest = {
